@@ -4,6 +4,8 @@ package scen
 import (
 	"encoding/json"
 	"fmt"
+	"os"
+	"strconv"
 	"sync"
 
 	"simlal/sim"
@@ -86,11 +88,19 @@ func (c LalConf) JSON() []byte {
 			"sub_httpts_enable": auth("sub_httpts"), "pub_rtsp_enable": auth("pub_rtsp"), "sub_rtsp_enable": auth("sub_rtsp"),
 			"hls_m3u8_enable": auth("hls_m3u8")},
 		"pprof": map[string]interface{}{"enable": false, "addr": ":8084"},
-		"log":   map[string]interface{}{"level": 6, "filename": "", "is_to_stdout": false, "is_rotate_daily": false, "assert_behavior": 1},
+		"log":   map[string]interface{}{"level": logLevel(), "filename": "", "is_to_stdout": os.Getenv("SIMLAL_LOG") != "", "is_rotate_daily": false, "assert_behavior": 1},
 		"debug": map[string]interface{}{"log_group_interval_sec": 0, "log_group_max_group_num": 0, "log_group_max_sub_num_per_group": 0},
 	}
 	b, _ := json.Marshal(m)
 	return b
+}
+
+func logLevel() int {
+	if v := os.Getenv("SIMLAL_LOG"); v != "" {
+		n, _ := strconv.Atoi(v)
+		return n
+	}
+	return 6
 }
 
 // ---- notification recorder (existing seam: logic.Option.NotifyHandler) ---------------------------------------------------
